@@ -337,14 +337,6 @@ func (P) Generate(g *core.Gen) {
 }
 
 func genMerkle(g *core.Gen, r *core.Rand) {
-	for n := 0; n <= 1030; n++ {
-		if n <= 140 || n%64 <= 1 || n%64 == 63 {
-			g.Case("npot", n > 1, fmt.Sprintf("C13 npot %d", n))
-		}
-	}
-	for _, n := range []int{4095, 4096, 4097, 65535, 65536, 65537, 1 << 20, 1<<20 + 1, 1<<30 - 1, 1 << 30} {
-		g.Case("npot", true, fmt.Sprintf("C13 npot %d", n))
-	}
 	maxSmall := 130
 	for n := 0; n <= maxSmall; n++ {
 		for w := 0; w <= 1; w++ {
@@ -1060,39 +1052,6 @@ func genHardening(g *core.Gen, r *core.Rand) {
 	for _, v := range []int64{-2147483648, -1, 0, 1, 2, 3, 4, 536870912, 2147483647} {
 		g.Case("serialized-height-version", true, fmt.Sprintf("C13 shh %d", v))
 	}
-	// rollingMerkleTreeStore.add on consistent and inconsistent states
-	for i := 0; i < g.N(300, 2000); i++ {
-		n := uint64(r.Intn(1 << 12))
-		if r.Chance(1, 4) {
-			n = uint64(r.Pick(0, 1, 2, 3, 7, 8, 15, 16, 1<<20-1, 1<<20, 1<<40-1))
-		}
-		k := 0
-		for x := n; x > 0; x >>= 1 {
-			k += int(x & 1)
-		}
-		consistent := true
-		if r.Chance(1, 6) { // too few / too many roots for the count
-			k += int(r.Pick(-2, -1, 1))
-			consistent = false
-			if k < 0 {
-				k = 0
-			}
-		}
-		roots := make([]string, k)
-		for j := range roots {
-			roots[j] = hx(r.Bytes(32))
-		}
-		rs := "_"
-		if k > 0 {
-			rs = strings.Join(roots, ",")
-		}
-		cl := "rolling-add"
-		if !consistent {
-			cl = "rolling-add-inconsistent"
-		}
-		g.Case(cl, n > 0, fmt.Sprintf("C13 radd %d %s %s", n, rs, hx(r.Bytes(32))))
-	}
-	genSanity(g, r)
 	// A2: results are values
 	for n := 0; n <= g.N(33, 80); n++ {
 		g.Case("merkle-values", n >= 2, "C13 mvalues "+txsTok(leafList(r, n, 0, 0, true)))
@@ -1270,7 +1229,10 @@ func genSanity(g *core.Gen, r *core.Rand) {
 				continue
 			}
 			mut := append(append([]*wire.MsgTx{}, txs...), txs[n-k:]...)
-			emit("sanity-duplicated-tail", root, mut)
+			if string(txidRoot(mut)) == string(root) {
+				// only when the original root still matches: exactly one check fails
+				emit("sanity-duplicated-tail", root, mut)
+			}
 			emit("sanity-duplicated-tail", txidRoot(mut), mut)
 		case 2:
 			// root of the reversed list / of the wtxids
